@@ -201,13 +201,21 @@ func (s *c18Srv) Stop() {
 	if s.cli != nil {
 		s.cli.Close()
 	}
-	switch {
-	case s.s0 != nil:
-		s.s0.Stop()
-	case s.s1 != nil:
-		s.s1.Stop()
-	case s.s2 != nil && s.kind == 3:
-		s.s2.Stop()
+	done := make(chan struct{})
+	go func() {
+		defer func() { recover(); close(done) }()
+		switch {
+		case s.s0 != nil:
+			s.s0.Stop()
+		case s.s1 != nil:
+			s.s1.Stop()
+		case s.s2 != nil && s.kind == 3:
+			s.s2.Stop()
+		}
+	}()
+	select {
+	case <-done:
+	case <-time.After(8 * time.Second): // never wait for ever on a server that does not stop (c18.shutdown reports it)
 	}
 }
 
